@@ -378,6 +378,37 @@ def end_of_chain(chk, rid):
     raise AnalysisError('TypeReference: no method assigning .target found (CloseRecord?)')
 
 
+def list_elements_kept(chk, rid, table=None, fi=None):
+  """two lists: the element references that were unified are stored back into
+  both lists (directly, or into the list the other side is linked to) - a raw
+  element left in one of them forgets what was learnt about the element."""
+  repo = chk.repo
+  if table is None:
+    MODULE[0] = repo.by_name('reference_algebra')
+    table, _ = unify_table(repo, rank_table(repo))
+    fi = repo.func('reference_algebra.Unify')
+  ll = table[('list', 'list')]
+  ok_ll = True
+  n_ok = 0
+  for kind, eff in ll:
+    if any(e[0] == 'clash' for e in eff):
+      continue
+    n_ok += 1
+    rebuilt = {e[1] for e in eff if e[0] == 'set' and e[2] == 'list'}
+    linked = {e[1]: e[2] for e in eff if e[0] == 'link' and len(e) > 2}
+    for side in ('A', 'B'):
+      other = 'B' if side == 'A' else 'A'
+      if not (side in rebuilt or (side in linked and other in rebuilt) or
+              any(e[0] == 'link' and 'both denote' in str(e[1]) for e in eff) and rebuilt):
+        ok_ll = False
+  chk.ob(rid, ok_ll and n_ok > 0, None,
+         'Unify(list, list) stores the unified element references back into both lists',
+         'after two lists were unified one of them still holds its old element '
+         '(the unified element reference is dropped): what is learnt later about '
+         'the elements of one list is not seen through the other, so clashes '
+         'between their elements are missed', fi=fi)
+
+
 def run(chk):
   repo = chk.repo
   chk.assume('A3-like: the specification matrix in rules/c16.py (derived from the '
@@ -457,6 +488,7 @@ def run(chk):
          'two closed records are unified when `%s`: with the arguments the '
          'other way round the same two types clash (and a closed record gains '
          'fields it does not have)' % (asym[0] if asym else ''), fi=fi)
+  list_elements_kept(chk, 'C16-R1', table, fi)
   ss = table[('Singular', 'Sequential')]
   ok = all(any(e[0] == 'set' and e[2] == 'Str' for e in eff) for kind, eff in ss)
   chk.ob('C16-R1', ok, None, 'Singular ^ Sequential = Str',
